@@ -220,17 +220,16 @@ type gtask struct {
 }
 
 type gatedResult struct {
-	Cfg                   gatedCfg  `json:"cfg"`
-	Out                   outcome   `json:"outcome"`
-	Restart               *outcome  `json:"restart_outcome,omitempty"`
-	Steps                 []string  `json:"steps"`
-	Findings              []finding `json:"-"`
-	Inconcl               string    `json:"inconclusive,omitempty"`
-	AllBusy               bool      `json:"all_workers_busy_at_shutdown"`
-	RejectedSubmits       int       `json:"rejected_submits"`
-	CancelledWhileRunning int       `json:"cancelled_while_running_after_restart"`
-	RecoveredPanics       int       `json:"recovered_submit_panics"`
-	Workers               int       `json:"effective_workers"`
+	Cfg             gatedCfg  `json:"cfg"`
+	Out             outcome   `json:"outcome"`
+	Restart         *outcome  `json:"restart_outcome,omitempty"`
+	Steps           []string  `json:"steps"`
+	Findings        []finding `json:"-"`
+	Inconcl         string    `json:"inconclusive,omitempty"`
+	AllBusy         bool      `json:"all_workers_busy_at_shutdown"`
+	RejectedSubmits int       `json:"rejected_submits"`
+	RecoveredPanics int       `json:"recovered_submit_panics"`
+	Workers         int       `json:"effective_workers"`
 }
 
 // runGated executes one schedule. Every wait is structural (gdump); nothing
@@ -499,11 +498,10 @@ func runGated(cfg gatedCfg, preBlock func(outcome, []string)) (res gatedResult) 
 		fill(&res.Out)
 		step("restarted, one more task, Shutdown+Wait: %s counter=%d queue=%d ran=%d accepted=%d finished=%d", res.Out.Pattern, res.Out.Counter, res.Out.Queue, res.Out.Ran, res.Out.Accepted, res.Out.Finished)
 		res.Findings = classify(res.Out)
-		// with cancel-on-shutdown the statement allows "run or cancelled exactly once": a worker of the restarted pool
-		// that picks up a shutdown signal left over from the previous cycle cancels instead of running (seen on the
-		// unchanged tree too); conservation is judged by classify above
-		if t.runs.Load() != 1 && !(cfg.Cancel && t.runs.Load() == 0) && len(res.Findings) == 0 {
-			res.Findings = append(res.Findings, finding{"accepted-task-neither-run-nor-cancelled", fmt.Sprintf("task submitted after Shutdown();Start() ran %d times", t.runs.Load())})
+		// the task was submitted to the restarted, running pool and the system was quiescent before the next Shutdown:
+		// it must have run (cancel-on-shutdown only licenses cancelling what is pending when Shutdown is called)
+		if t.runs.Load() != 1 && len(res.Findings) == 0 {
+			res.Findings = append(res.Findings, restartedTaskFinding(cfg, "task submitted after Shutdown();Start()", int(t.runs.Load())))
 		}
 		return
 	}
@@ -568,8 +566,8 @@ func runGated(cfg gatedCfg, preBlock func(outcome, []string)) (res gatedResult) 
 		fs := classify(o)
 		if st != gdump.Returned {
 			fs = append(fs, finding{"start-never-returns", "Start() after a completed shutdown is parked for ever (" + o.Pattern + ")"})
-		} else if t.runs.Load() != 1 && !(cfg.Cancel && t.runs.Load() == 0) && len(fs) == 0 {
-			fs = append(fs, finding{"accepted-task-neither-run-nor-cancelled", fmt.Sprintf("task submitted after restart ran %d times", t.runs.Load())})
+		} else if t.runs.Load() != 1 && len(fs) == 0 {
+			fs = append(fs, restartedTaskFinding(cfg, "task submitted after restart", int(t.runs.Load())))
 		}
 		for _, f := range fs {
 			dup := false
@@ -583,6 +581,15 @@ func runGated(cfg gatedCfg, preBlock func(outcome, []string)) (res gatedResult) 
 		}
 	}
 	return
+}
+
+// restartedTaskFinding: a task submitted to a restarted pool that was quiescent before the next Shutdown did not
+// run exactly once although conservation holds (it was marked done): the running pool cancelled it.
+func restartedTaskFinding(cfg gatedCfg, what string, runs int) finding {
+	if runs == 0 && cfg.Cancel {
+		return finding{"task-cancelled-while-pool-running", what + " was marked done without running although the pool was running and quiescent before the next Shutdown"}
+	}
+	return finding{"accepted-task-neither-run-nor-cancelled", fmt.Sprintf("%s ran %d times", what, runs)}
 }
 
 func stName(s gdump.Status) string {
